@@ -8,6 +8,6 @@ if grep -q '\.pyx' "$P"; then (cd $D && /venv/bin/python setup.py build_ext --in
 shift
 for p in "$@"; do
   VERIF_REPO=$D python3-vt /verif/check.py $p > $D/.out 2>&1; rc=$?
-  grep -v "^   obligation" $D/.out | tail -${TAILN:-6}; echo "exit=$rc ($p)"
+  tail -${TAILN:-6} $D/.out; echo "exit=$rc ($p)"
 done
 rm -rf $D
